@@ -345,7 +345,6 @@ class Model:
 
     def slice_(self, t):
         c = self.expr(t[1])
-        self.tick()
         shape, a, b = t[2], t[3], t[4]
         start = stop = step = None
 
